@@ -228,7 +228,7 @@ pub fn run(ctx: &mut Ctx) {
         ctx.floor(&format!("rt.{}", name), 500);
     }
     ctx.floor("body.calls", 20_000);
-    for (r, m) in [("R1", 446), ("R2", 500), ("R3", 500), ("R4", 500), ("R5", 4), ("R6", 500), ("R7", 500), ("R8", 65531), ("R9", 240), ("R10", 5000), ("R11", 1000)] {
+    for (r, m) in [("R1", 446), ("R2", 500), ("R3", 500), ("R4", 500), ("R5", 4), ("R6", 500), ("R7", 500), ("R8", 65531), ("R9", 240), ("R10", 5000), ("R11", 1000), ("R12", 400)] {
         ctx.floor(r, m);
     }
     ctx.floor("lencorrupt.cases", 20_000);
@@ -415,6 +415,17 @@ pub fn run(ctx: &mut Ctx) {
                 must_reject(ctx, "R1", &wrap(1, &b), json!({"sid_len": n, "hello": "client", "version": v, "bytes_after_compression": tail}));
             }
         }
+    });
+    // a Certificate body in the TLS 1.3 layout with a non-empty request context: read in the layout this crate
+    // implements its chain length overruns the body ("certificate list longer than the body")
+    ctx.sweep("R12-tls13-shaped-certificate", 512, |ctx, idx| {
+        let mut r = Rng::new(idx ^ 0x1312);
+        let body = gen::tls13_certificate_body(&mut r);
+        let legacy_len = u32::from_be_bytes([0, body[0], body[1], body[2]]) as usize;
+        if legacy_len <= body.len() - 3 {
+            return;
+        }
+        must_reject(ctx, "R12", &wrap(11, &body), json!({"what": "TLS 1.3 Certificate layout, request context non-empty", "legacy_chain_length": legacy_len, "body_len": body.len()}));
     });
     let n = ctx.tier.pick(16000, 160000);
     ctx.family("R2-R7", n, |ctx, case: &mut Case| {
